@@ -101,8 +101,26 @@ def grid(ctx, thorough):
                         taglists.append(order)
     # non-ASCII tags: Python/node agreement only (trusted base sampling of lower-casing)
     nonascii = [['İncome'], ['ıncome'], ['INCOMÉ'], ['ｉｎｃｏｍｅ'], ['Straße', 'TRANSFER'], ['ÉPARGNE', 'Investment']]
+    # lists that coincide once they are SERIALISED (joined by a separator, concatenated): [w + sep + o] against [w, o], [w[:2], w[2:]]
+    # against [w] - both sides classify a LIST of tags; each pair in both orders (with fresh companion words, so that whichever list a
+    # long-lived cache meets first, the other one follows it in the same JavaScript context / Python process)
+    collide = []
+    n = 0
+    for w in SPECIAL:
+        for sep in [',', ' ', '|', ';', '\n', '\t', ', ', '\x00']:
+            for first in (0, 1):
+                n += 1
+                o = f'k{n}'
+                pair = [[w + sep + o], [w, o]] if first == 0 else [[o, w], [o + sep + w]]
+                collide += pair
+        collide += [[w[:2], w[2:]], [w], [w.upper()[:3] + 'x', 'y'], [w.upper()[:3] + 'xy']]
     seen, cases = set(), []
     others = [(0.0, 0.0), (12.5, 3.25), (-7.0, 1e9)]
+    for t in collide:
+        for a in (-25.0, 40.0):
+            b, c = others[len(cases) % 3]
+            cases.append({'op': 'classify', 'amount': fbits(a), 'tags': t, 'b': float_bits(b), 'c': float_bits(c), 'ascii': True})
+            seen.add((fbits(a), json.dumps(t)))
     for a in amounts:
         for t in taglists + nonascii:
             key = (fbits(a), json.dumps(t))
@@ -361,7 +379,9 @@ def run(ctx):
         cases = grid(ctx, thorough) + ucases
     if ctx.replay:
         rp = json.loads(common.read(ctx.replay))
-        if 'case' in rp.get('counterexample', {}):
+        if 'sequence' in rp.get('counterexample', {}):
+            cases = rp['counterexample']['sequence']
+        elif 'case' in rp.get('counterexample', {}):
             cases = [rp['counterexample']['case']]
     py = py_side(cases)
     js = node_side(cases)
@@ -372,6 +392,20 @@ def run(ctx):
     except Exception as e:  # driver unavailable: the translator validation obligation is broken
         ctx.obligation('driver', 'correspondence', False, error=str(e)[:500])
     prop_fail, tr_fail = compare(cases, py, js, lean)
+    if prop_fail and len(cases) > 1:
+        # a difference that needs the EARLIER classifications of the same JavaScript context / Python process (a cache, a memo) does not
+        # show on the case alone: keep the shortest run of preceding cases that reproduces it, so that the replay is the history
+        pf = prop_fail[0]
+        alone, _ = compare([pf['case']], py_side([pf['case']]), node_side([pf['case']]), None)
+        if not alone:
+            i = cases.index(pf['case'])
+            for k in (1, 2, 3, 4, 8, 16, 64, 256, i):
+                seq = cases[max(0, i - k):i + 1]
+                again, _ = compare(seq, py_side(seq), node_side(seq), None)
+                if any(x['case'] == pf['case'] for x in again):
+                    pf['sequence'] = seq
+                    pf['note'] = 'differs only after the earlier classifications of this sequence (same JavaScript context / same Python process)'
+                    break
     # the hypothesis of the *_eq_of_specialAgree theorems, evaluated by the model on the real images
     lower_differs = [c['tags'] for c, j in zip(cases, js)
                      if any(t.lower() != lo for t, lo in j.get('lowered', []))]
